@@ -22,11 +22,11 @@ META = {
              "sample values; distinct = (alphabet, multiset, order, v)."),
     "assumptions": ["integer counting with numpy comparisons is the reference", "samples are finite (no NaN): the property's domain"],
     "deciding": ["stats.greater_equal_ecdf", "stats.less_equal_ecdf"],
-    "exhaustive_tiers": {"quick": {"multisets size<=7 over 6 letters": 1715, "value alphabets": 6, "orders": 3, "queries": "13 (+3 integer-typed queries for the real alphabets)"},
-                         "thorough": {"multisets size<=7 over 6 letters": 1715, "value alphabets": 6, "orders": 3, "queries": "13 (+3 integer-typed queries for the real alphabets)"}},
+    "exhaustive_tiers": {"quick": {"multisets size<=7 over 6 letters": 1715, "value alphabets": 7, "orders": 3, "queries": "13 (+3 integer-typed queries for the real alphabets)"},
+                         "thorough": {"multisets size<=7 over 6 letters": 1715, "value alphabets": 7, "orders": 3, "queries": "13 (+3 integer-typed queries for the real alphabets)"}},
 }
 
-META["added"] = 'Added: unsigned and narrow integer dtypes, a preallocated sample buffer queried, refilled in place and queried again, non-numeric results scored as violations (not monitor errors). int64 values beyond 2**53 with integer queries. integer-typed queries on real-valued samples.'
+META["added"] = 'Added: unsigned and narrow integer dtypes, a preallocated sample buffer queried, refilled in place and queried again, non-numeric results scored as violations (not monitor errors). int64 values beyond 2**53 with integer queries. integer-typed queries on real-valued samples. ecdf() results edited in place; infinite sample values.'
 MANIFEST = {
     "technique": "runtime post-conditions on the real ecdf functions (all call sites) vs integer counting; exhaustive small multisets + random heavy-tie samples",
     "level_text": "All 1715 multisets of size<=7 over 6 letters x 4 value alphabets x 3 orders x 13 query positions are enumerated completely (exhaustive for that sub-space) through the real functions under an exact counting oracle, plus 10^3 (quick) / 10^5 (thorough) random large samples; sum and monotonicity identities checked per sample.",
@@ -47,10 +47,12 @@ ALPHABETS = {
     "mixed": [-1e9, -1e-9, 0.0, 1e-9, 1.0, 1e9],
     "uint": [0, 1, 2, 3, 4, 5],          # stored in unsigned dtypes (event counts often are)
     # integers beyond 2**53: neighbouring values are closer than the float64 spacing there, so any detour through floats merges them
+    # infinite values are ordinary members of a sample (a pseudo-likelihood is -inf when an event lies in a zero-rate cell); only NaN is excluded
+    "inf": [float("-inf"), -12.5, -7.0, -3.25, 0.0, float("inf")],
     "bigint": [2 ** 53, 2 ** 53 + 1, 2 ** 53 + 3, 2 ** 53 + 4, 2 ** 53 + 6, 2 ** 53 + 7],
 }
 BIG_GAPS = [2 ** 53 + 2, 2 ** 53 + 5, 2 ** 53 + 2, 2 ** 53 + 5, 2 ** 53 + 2]
-DTYPES = {"bigint": ["int64"], "int": ["int64", "int32"], "uint": ["uint64", "uint8", "uint32"], "real": ["float64", "float32x"], "neg": ["float64"], "mixed": ["float64"]}
+DTYPES = {"inf": ["float64"], "bigint": ["int64"], "int": ["int64", "int32"], "uint": ["uint64", "uint8", "uint32"], "real": ["float64", "float32x"], "neg": ["float64"], "mixed": ["float64"]}
 
 
 def _stats():
@@ -69,7 +71,7 @@ def _valid_sample(x):
         a = numpy.asarray(x)
         if a.ndim != 1 or a.shape[0] == 0 or a.dtype.kind not in "fiu":
             return False
-        return bool(numpy.all(numpy.isfinite(a.astype(float))))
+        return not bool(numpy.any(numpy.isnan(a.astype(float))))
     except Exception:  # noqa
         return False
 
@@ -236,6 +238,17 @@ def run(ctx):
                             nt = True
                         if nt:
                             ctx.nt(digest((aname, ms, oi, qi)))
+                    if oi == 1 and ci % 5 == 0:
+                        # history: the caller takes the arrays returned by ecdf() and edits them in place (percent instead of fractions) - every
+                        # later answer, also for other samples of the same length, is judged by the contracts as usual
+                        with monitor.suspended():
+                            try:
+                                exs, eys = stats.ecdf(xa)
+                                eys *= 100.0
+                                exs += 1
+                            except (ValueError, TypeError):
+                                pass
+                        ctx.add("ecdf_results_edited_in_place")
                     if oi == 0:
                         # history: one preallocated sample buffer is queried, refilled in place with another multiset, and queried again
                         # (the way a simulation loop reuses its array); the contracts judge every answer against the buffer's current content
